@@ -181,6 +181,14 @@ Theorem C11_linker_copy_then_any_operations K s i r es :
      forall n, view n (sh (run_hevents K s1 es)) (VR r') = view n (sh s1) (VR r')).
 Proof. exact (linker_copy_independent_ops K s i r es). Qed.
 
+(* ... hypotheses satisfiable: a linker with its two nested submodels as ONE root, BaseLinker.copy, then a linker solve, writes
+   into a submodel of the copy, list mutations inside a submodel of the original, a class mutation: nothing shared at the end *)
+Theorem C11_linker_history_example :
+  roots_ok s_lk1 /\ nth_error (sroots s_lk1) 2 = Some lk_root /\ forallb hevent_ok linker_history = true /\
+  length (sroots (run_event K0 s_lk1 (ELinkerCopy 2))) = 4%nat /\
+  sharing (run_hevents K0 (run_event K0 s_lk1 (ELinkerCopy 2)) linker_history) = [].
+Proof. exact ex_linker_state_ok. Qed.
+
 (* siblings and the class at operation level: two instances created at any point, then ANY history of operations / copies /
    instantiations: every root that receives no operation - the class, either sibling, anything else - keeps its state at every
    depth (holds since fix 57a6922; before it `check` / `endogenous` were the class's own lists: ex_pre_fix_init_shares) *)
@@ -265,3 +273,4 @@ Print Assumptions C11_linker_copy_observationally_equal_example.
 Print Assumptions C11_linker_copy_submodels_observationally_equal.
 Print Assumptions C11_path_footprint.
 Print Assumptions C11_siblings_then_any_operations.
+Print Assumptions C11_linker_history_example.
